@@ -182,7 +182,25 @@ func runC19(c *run.Ctx) {
 		ns := w.Workloads[0].Ns
 		p1 := world.Workload{Ns: ns, Name: "conflict-owner", Kind: world.KOwnedPods, NPods: 1, Labels: map[string]string{"app": "a"}}
 		p2 := p1
-		p2.Labels = map[string]string{"app": "b"}
+		// every way two label sets can differ: other value, extra key, missing key, empty value vs missing key, empty vs non-empty value
+		switch g.Intn(6) {
+		case 0:
+			p2.Labels = map[string]string{"app": "b"}
+		case 1:
+			p2.Labels = map[string]string{"app": "a", "tier": "c"}
+		case 2:
+			p1.Labels = map[string]string{"app": "a", "tier": "c"}
+			p2.Labels = map[string]string{"app": "a"}
+		case 3:
+			p2.Labels = map[string]string{"app": "a", "canary": ""}
+		case 4:
+			p1.Labels = map[string]string{"app": "a", "canary": ""}
+			p2.Labels = map[string]string{"app": "a"}
+		default:
+			p1.Labels = map[string]string{"app": ""}
+			p2.Labels = map[string]string{"app": "a"}
+		}
+		r.Ev("owner_label_difference_shapes", 1)
 		d1 := (&world.World{Workloads: []world.Workload{p1}}).Docs()[0]
 		d2 := (&world.World{Workloads: []world.Workload{p2}}).Docs()[0]
 		d2.YAML = strings.Replace(d2.YAML, "conflict-owner-x0", "conflict-owner-x1", 1)
